@@ -7,6 +7,7 @@ the filter `true` both as no filter and as Filter(true)), and the filtered run m
 memory, nor reach a higher peak, than the unfiltered run on the same input.  (MessagePack: see C09's
 machinery; its filter cases are added there.)"""
 import json
+import os
 import random
 
 import vlib
@@ -49,6 +50,28 @@ def run(tier):
     chk.cov["traces_validated_against_impl"] += ran
     chk.cov["evaluations"] += evals
     chk.phase("feed:filtered", lines=n, evaluations=evals, spec_disagreements=bad)
+    os.remove(cases)
+    # the same on a build with comments, NaN and Infinity enabled (their literals and comments inside kept and
+    # discarded parts)
+    A = rc.OPTS_ALL
+    alines = rg.gen_filtered(rng, A, 1500 if quick else 20000)
+    alines += [dict(l, f=rg.rand_filter(rng)) for l in rg.gen_mutants(rng, A, 600 if quick else 8000)]
+    r, cases, n = rc.feed_cases(chk, "filtered-all", wd, alines)
+    chk.add_tlc(r)
+    with open(cases) as f:
+        for ln in f:
+            c = json.loads(ln)
+            if c["ucode"] == "Ok" and (c["code"] != "Ok" or not rc.same_value(c["v"], c["proj"])):
+                bad += 1
+                if bad <= 3:
+                    chk.violation("JsonReader.tla: filtered result differs from Project(unfiltered result): "
+                                  + str(rc.pretty_case(ln)), ln)
+    ran, evals, problems, _ = rc.replay_cases(chk, bins["all"], cases, "filtered-all/all")
+    for what, case in problems[:3]:
+        chk.violation(what, case)
+    chk.cov["traces_validated_against_impl"] += ran
+    chk.cov["evaluations"] += evals
+    chk.phase("feed:filtered-all", lines=n, evaluations=evals)
     with open(cases) as f:
         chk.sample({"case": rc.pretty_case(f.readline())})
     # MessagePack: model level (every byte string of the header alphabet, 12 filters) and seeded pairs
@@ -83,4 +106,7 @@ def run(tier):
                           "filters the same input is also run unfiltered on the same allocator to compare requested and "
                           "peak bytes", rk.COMMON_ASSUMPTIONS + [
         "don't-care zone: numeric filter leaves and an explicit null entry next to a \"*\" entry",
-        "syntax errors inside discarded parts may go unnoticed (skip mode), exactly as the specification's skip mode"])
+        "syntax errors inside discarded parts may go unnoticed (skip mode), exactly as the specification's skip mode",
+        "'filtering never requests more memory than the unfiltered run' is compared when the unfiltered run completes "
+        "(Ok); when it stops early (a syntax error inside a part the filter discards, a capacity limit of a small "
+        "build) the filtered run legitimately reads further, and the general memory bound per input byte applies"])
